@@ -84,13 +84,17 @@ def marginal? (g : SG) (ia ib : List Nat) : Except MargErr Marg :=
     if g.rank > ib.length then .ok ⟨marginalWith g ia ib Binv, ib.length, det⟩
     else .ok ⟨{ dim := ia.length, rank := 0, w := fun _ => 0, P := fun _ _ => 0 }, ib.length, det⟩
 
+/-- the block `A[ia, ib]` -/
+def crossBlock (ia ib : List Nat) (A : M) : M := fun i j =>
+  match ia[i]?, ib[j]? with
+  | some s, some t => A s t
+  | _, _ => 0
+
 /-- closed form on the dense triple: integrate out the positions `ib`, keep `ia`;
     `Binv = Λbb⁻¹`.  The constant excludes `dimB/2·log 2π − ½ log det Λbb`. -/
 def schur (d : Dense) (ia ib : List Nat) (Binv : M) : Dense :=
   let Laa := gatherRows ia (tr (gatherRows ia d.prec))      -- Λ[ia, ia]
-  let Lab : M := fun i j => match ia[i]?, ib[j]? with
-    | some s, some t => d.prec s t
-    | _, _ => 0
+  let Lab : M := crossBlock ia ib d.prec
   let ea := gatherVec ia d.info
   let eb := gatherVec ib d.info
   let nb := ib.length
